@@ -74,7 +74,7 @@ kf("KF-bind-expr-multi", ["C01", "C04"],
 kf("KF-alloc-type-iter", ["C01", "C04"],
    "loop rewrites substitute the iterator in statements but not inside allocation types, leaving `t: f32[i+1]` with an unbound (or stale) iterator",
    "LoopIR_scheduling: DoDivideLoop / DoDivideWithRecompute / DoShiftLoop / DoLiftAlloc (autolift) via SubstArgs / Alpha_Rename on Alloc types",
-   {"op": ["divide_loop", "std.divide_loop_recursive", "std.round_loop", "divide_with_recompute", "autolift_alloc", "std.tile_loops"], "kind": UNB, "cause": RE(r"^unbound-iter,use:alloc-type")},
+   {"op": ["divide_loop", "std.divide_loop_recursive", "std.round_loop", "divide_with_recompute", "autolift_alloc", "std.tile_loops", "std.unroll_and_jam", "std.interleave_loop"], "kind": UNB, "cause": RE(r"^unbound-iter,use:alloc-type")},
    "seed alloc/dep_extent: divide_loop(i, 3, ['io','ii'], tail='cut')")
 kf("KF-shift-loop-alloc-type", ["C01", "C04"],
    "shift_loop (via cut_loop_and_unroll) does not substitute the shifted iterator inside an allocation type, so the buffer is too small",
